@@ -133,7 +133,9 @@ def window(ctx, rule, fi, counter, handler_pred, cached_attr=None):
 def run(ctx):
     prog, res = ctx.prog, ctx.res
     esc = ctx.escape('engine', kills=common.engine_kills(ctx))
-    is_handler = lambda call, r: r.kind == 'dyn' and r.note == 'handler'   # noqa: E731
+    tables = [set(t.qual for t in common.handler_table(ctx, f).values()) for f in ('_process_request', '_process_response')]
+    is_handler = lambda call, r: r.kind == 'dyn' and bool(r.targets) and any(   # noqa: E731
+        set(t.qual for t in r.targets) <= tb for tb in tables)
 
     # ---------------------------------------------------------------- M1
     preq = ctx.func('ikesa.IkeSa._process_request')
